@@ -8,6 +8,11 @@ def nontrivial(case, result):
     return any((s.startswith("restart") or s.startswith("crash")) and "M[]" not in s for s in segs)
 
 
+def nontrivial_restart(case, result):
+    segs = result.split(" | ")
+    return any(s.startswith("restart") and "M[]" not in s for s in segs)
+
+
 def run(ck):
     run_actor_check(
         ck, "Properties/C07.v", "c07", nontrivial,
@@ -16,7 +21,15 @@ def run(ck):
              "a kill in the middle of each request (the storage write is performed, then the call never returns and the node "
              "is replaced), and at random points (every other request, 30% mid-request kills) of random histories. After every "
              "restart the rebuilt set (as a peer would fetch it) is compared with the model's rebuild and, by the oracle, with "
-             "the store's metadata. non-trivial = distinct histories with a restart or kill on a non-empty store",
+             "the store's metadata. The same on the bundled persistent backends (hx-restart): request histories against the real "
+             "KeyspaceGroup on a SQLite file and on an LMDB directory (every single request and request pair of an alphabet, "
+             "delete-before-put / delete of an unknown id / newer delete on a tombstone / purge shapes, random histories) with "
+             "the database really closed and reopened from the same path at every restart; compared with the same actor model "
+             "and, by the oracle, set = storage metadata after every request and rebuilt set = set before the stop. "
+             "non-trivial = distinct histories with a restart or kill on a non-empty store",
+        extra_runs=[("hx-restart", "restart", "hx-store", nontrivial_restart)],
+        extra_trusted=["hx-restart (harness/hx-store): the actor on datacake-sqlite (file) and datacake-lmdb with orderly close + "
+                       "reopen in one process; no crash or power loss of the database engine itself"],
         assumptions=[
             "a storage write that returned (or was performed before the kill) is in the store: durability of the backend "
             "(WAL, fsync, LMDB commit) is outside the model",
